@@ -4,9 +4,9 @@ import Nervus.Driver.BTree
 import Nervus.Driver.Backup
 import Nervus.Driver.Bulk
 import Nervus.Driver.Capi
+import Nervus.Driver.CapiLbl
 import Nervus.Driver.CapiSched
 import Nervus.Driver.Capix
-import Nervus.Driver.CapiLbl
 import Nervus.Driver.Codec
 import Nervus.Driver.Crash
 import Nervus.Driver.Cypher
